@@ -1289,6 +1289,10 @@ func SelectExpr(query *Query, current Map, expr *sqlparser.SelectExprs, opts ...
 					if _, ok := value.(CteEvaluation); ok {
 						continue
 					}
+					// an aliased scope (FROM `<-` x) holds them one level down
+					if scope, ok := value.(Map); ok {
+						value = WithoutCtes(scope)
+					}
 					data[key] = value
 				}
 			}
